@@ -3,7 +3,8 @@ import BytomModel.Drv.Util
 /- driver mode c20.  Lines:
      reset                                   → ok   (both stores emptied)
      mem <op> | ldb <op>                     → result of <op> on the MemDB model / the abstract store
-   <op>:  get K | set K V | del K | batch s,K,V d,K … | ip P | ws P S f|r | setmut K V | getmut K
+   <op>:  get K | has K | set K V | setsync K V | del K | batch s,K,V d,K … | ip P | ws P S f|r
+          | setmut K V | setmutk K V | getmut K | batchmut K V
    K,P: hex or `-` (empty);  V,S: `nil`, `-` or hex. -/
 namespace BytomModel.Drv.C20
 open BytomModel.Drv BytomModel.KV
@@ -20,6 +21,7 @@ def showKV (kv : Bytes × Option Bytes) : String := toHex kv.1 ++ ":" ++ showVal
 def showOut : Out → String
   | .ok => "ok"
   | .val v => showVal v
+  | .pair a b => "pair " ++ showVal a ++ " " ++ showVal b
   | .seq cur rest =>
     let c := match cur with
       | none => "cur=none"
@@ -56,11 +58,42 @@ def parseOp : List String → Option Op
     let v ← parseHex v
     pure (.setMut k v)
   | ["getmut", k] => (parseHex k).map .getMut
+  | ["setsync", k, v] => do     -- SetSync: same map write / Put with the sync option
+    let k ← parseHex k
+    let v ← parseVal v
+    pure (.set k v)
+  | ["batchmut", k, v] => do
+    let k ← parseHex k
+    let v ← parseHex v
+    pure (.batchMut k v)
   | _ => none
+
+def showHas : Option Bytes → String
+  | none => "absent"
+  | some _ => "present"
 
 def step (st : Mem × Spec) (line : String) : (Mem × Spec) × String :=
   match words line with
   | ["reset"] => (([], []), "ok")
+  -- existence-style read `db.Get(k) != nil`
+  | ["mem", "has", k] => match parseHex k with
+    | some k => (st, showHas (Mem.get st.1 k))
+    | none => (st, "bad-op")
+  | ["ldb", "has", k] => match parseHex k with
+    | some k => (st, showHas (Spec.get st.2 k))
+    | none => (st, "bad-op")
+  -- `Set(kbuf, v)`, the caller flips `kbuf[0]`; observe `Get(k)`, `Get(k')`: the key is converted
+  -- (`string(key)` / copied) at `Set` in both backends, so this is `set` followed by two `get`s
+  | ["mem", "setmutk", k, v] => match parseHex k, parseHex v with
+    | some k, some v =>
+      let m := Mem.set st.1 k (some v)
+      ((m, st.2), "pair " ++ showVal (Mem.get m k) ++ " " ++ showVal (Mem.get m (flip0 k)))
+    | _, _ => (st, "bad-op")
+  | ["ldb", "setmutk", k, v] => match parseHex k, parseHex v with
+    | some k, some v =>
+      let s := Spec.set st.2 k v
+      ((st.1, s), "pair " ++ showVal (Spec.get s k) ++ " " ++ showVal (Spec.get s (flip0 k)))
+    | _, _ => (st, "bad-op")
   | "mem" :: rest =>
     match parseOp rest with
     | some op => let r := Mem.step st.1 op; ((r.1, st.2), showOut r.2)
